@@ -234,3 +234,56 @@ def temp_attr_store(src: str, qual: str) -> str:
     if not t.n:
         return None
     return ast.unparse(ast.fix_missing_locations(tree))
+
+
+def inline_alias(src: str, qual: str) -> str:
+    """Locals bound exactly once, at the top level of the function, to a pure attribute chain on `self` or a parameter
+    (`options = self.options`, `mesh = self.device.mesh`) are replaced by that chain everywhere and the binding is dropped."""
+    import copy
+    tree = ast.parse(src)
+    fn = _func(tree, qual)
+    if fn is None or not isinstance(fn, ast.FunctionDef):
+        return None
+    params = {a.arg for a in fn.args.args + fn.args.kwonlyargs + fn.args.posonlyargs}
+    stores = {}
+    for n in ast.walk(fn):
+        if isinstance(n, ast.Name) and isinstance(n.ctx, (ast.Store, ast.Del)):
+            stores[n.id] = stores.get(n.id, 0) + 1
+        if isinstance(n, (ast.FunctionDef, ast.Lambda)) and n is not fn:
+            for a in n.args.args:
+                stores[a.arg] = stores.get(a.arg, 0) + 2
+
+    def pure_chain(e):
+        while isinstance(e, ast.Attribute):
+            e = e.value
+        return isinstance(e, ast.Name) and (e.id == "self" or e.id in params)
+    mapping = {}
+    keep = []
+    for st in fn.body:
+        if isinstance(st, ast.Assign) and len(st.targets) == 1 and isinstance(st.targets[0], ast.Name) and isinstance(st.value, ast.Attribute) \
+                and pure_chain(st.value) and stores.get(st.targets[0].id, 0) == 1 and st.targets[0].id not in params:
+            # the chain must not be rebound later in the function (self.options = ... / param = ...)
+            root = st.value
+            while isinstance(root, ast.Attribute):
+                root = root.value
+            rebound = any(isinstance(x, ast.Attribute) and isinstance(x.ctx, ast.Store) and ast.unparse(x) == ast.unparse(st.value) for x in ast.walk(fn)) \
+                or stores.get(root.id, 0) > 0
+            if not rebound:
+                mapping[st.targets[0].id] = st.value
+                continue
+        keep.append(st)
+    if not mapping:
+        return None
+
+    class S(ast.NodeTransformer):
+        def visit_Name(self, node):
+            if isinstance(node.ctx, ast.Load) and node.id in mapping:
+                return copy.deepcopy(mapping[node.id])
+            return node
+    # chains may mention other aliases (mesh = device.mesh after device = self.device): resolve to a fixpoint first
+    for _ in range(4):
+        for k in list(mapping):
+            mapping[k] = S().visit(copy.deepcopy(mapping[k]))
+    fn.body = keep or [ast.Pass()]
+    S().visit(fn)
+    return ast.unparse(ast.fix_missing_locations(tree))
